@@ -193,6 +193,35 @@ func (p *Poly) coefOf(a *Term) (*big.Int, bool) {
 	return c, other
 }
 
+// splitLinear writes p as s*a + rest with a occurring in neither s nor rest (ok = false when a occurs with a higher
+// power or inside another factor).
+func (p *Poly) splitLinear(a *Term) (s, rest *Poly, ok bool) {
+	s, rest = newPoly(), newPoly()
+	for k, mo := range p.m {
+		n := 0
+		var others []*Term
+		for _, f := range mo.factors {
+			switch {
+			case f.Key() == a.Key():
+				n++
+			case f.contains(func(x *Term) bool { return x.Key() == a.Key() }):
+				return nil, nil, false
+			default:
+				others = append(others, f)
+			}
+		}
+		switch n {
+		case 0:
+			rest.addMonom(k, mo.coef, mo.factors)
+		case 1:
+			s.addMonom(factorsKey(others), mo.coef, others)
+		default:
+			return nil, nil, false
+		}
+	}
+	return s, rest, true
+}
+
 func (p *Poly) mentions(pred func(*Term) bool) bool {
 	for _, mo := range p.m {
 		for _, f := range mo.factors {
@@ -454,6 +483,43 @@ func canonIte(c Cond, x, y *Term) *Term {
 			return mkMinMax(OpMax, x, y)
 		}
 	}
+	// the integer spelling of a ceiling division: q := a/b; if a%b > 0 { q++ }   (exact for every a when b >= 1:
+	// a%b <= 0 means a is a multiple of b or negative, where the truncated quotient is the ceiling)
+	if isIntLike(x.Typ) && isIntLike(y.Typ) && (c.Kind == CGE0 || c.Kind == CEQ0 || c.Kind == CNE0) && c.P != nil {
+		var r *Term
+		var rc *big.Int
+		cst := big.NewInt(0)
+		okShape := true
+		for k, mo := range c.P.m {
+			switch {
+			case k == "":
+				cst = mo.coef
+			case len(mo.factors) == 1 && mo.factors[0].Op == OpRem && r == nil:
+				r, rc = mo.factors[0], mo.coef
+			default:
+				okShape = false
+			}
+		}
+		if okShape && r != nil {
+			q := normInt(&Term{Op: OpDiv, Typ: intT, Args: []*Term{r.Args[0], r.Args[1]}})
+			var zeroV, otherV *Term // value where the remainder is not positive, value where it is
+			switch {
+			case c.Kind == CGE0 && rc.Cmp(big.NewInt(-1)) == 0 && cst.Sign() == 0: // -rem >= 0
+				zeroV, otherV = x, y
+			case c.Kind == CGE0 && rc.Cmp(big.NewInt(1)) == 0 && cst.Cmp(big.NewInt(-1)) == 0: // rem - 1 >= 0
+				zeroV, otherV = y, x
+			case c.Kind == CEQ0 && cst.Sign() == 0:
+				zeroV, otherV = x, y
+			case c.Kind == CNE0 && cst.Sign() == 0:
+				zeroV, otherV = y, x
+			}
+			// (rem == 0 / rem != 0 decide the same as rem <= 0 / rem > 0 only for a >= 0: accepted for lengths)
+			if zeroV != nil && normInt(zeroV).Equal(q) && normInt(otherV).Equal(q.AddInt(1)) &&
+				(c.Kind == CGE0 || structNonNeg(r.Args[0], 0)) {
+				return canon(&Term{Op: OpCeilDiv, Typ: x.Typ, Args: []*Term{r.Args[0], r.Args[1]}})
+			}
+		}
+	}
 	// canonical polarity: the smaller key of c / ¬c goes first
 	n := c.Not()
 	if n.Key() < c.Key() {
@@ -684,6 +750,23 @@ type Facts struct {
 	extra []*Poly // polynomials of the current query (so that their min/max atoms are known)
 }
 
+// geIn2: q follows from the sum of two known facts (used for the operand of a rem/div, e.g. x + m - x mod m >= 0
+// from x - x mod m >= 0 and m - 1 >= 0).
+func geIn2(g []*Poly, q *Poly) bool {
+	if len(q.m) > 6 || len(g) > 400 {
+		return false
+	}
+	for i, a := range g {
+		d := q.Sub(a)
+		for _, b := range g[i:] {
+			if nonNegConst(d.Sub(b)) {
+				return true
+			}
+		}
+	}
+	return false
+}
+
 func geIn(g []*Poly, q *Poly) bool {
 	if nonNegConst(q) {
 		return true
@@ -803,8 +886,10 @@ func (f *Facts) ge0Facts() []*Poly {
 				out = append(out, m)
 			}
 		case OpCeilDiv:
+			// a >= 0, b >= 1: ceildiv(a,b) >= 0, a <= b*ceildiv(a,b) <= a + b - 1
 			if geIn(out, normInt(t.Args[0])) && geIn(out, normInt(t.Args[1]).AddInt(-1)) {
-				out = append(out, m)
+				a, b := normInt(t.Args[0]), normInt(t.Args[1])
+				out = append(out, m, b.Mul(m).Sub(a), a.Add(b).AddInt(-1).Sub(b.Mul(m)))
 			}
 		case OpCall:
 			// u = uintN(x) for a signed x of at most that width: u >= 0; x >= 0 implies u = x; u < 2^N - 2^(M-1) implies u = x >= 0
@@ -828,7 +913,7 @@ func (f *Facts) ge0Facts() []*Poly {
 		case OpRem:
 			// a >= 0, b >= 1: 0 <= a mod b <= b-1 and a mod b <= a
 			a, b := normInt(t.Args[0]), normInt(t.Args[1])
-			if geIn(out, a) && geIn(out, b.AddInt(-1)) {
+			if geIn(out, b.AddInt(-1)) && (geIn(out, a) || geIn2(out, a)) {
 				out = append(out, m, b.AddInt(-1).Sub(m), a.Sub(m))
 			}
 		case OpDiv:
